@@ -47,6 +47,8 @@ def run(prog, chk):
     chk.rule(strops.blank_only_separators, prog, chk)  # a pair / list cut at blanks is cut at tabs and newlines too
     from props import C15 as _C15
     chk.rule(_C15.scope_pairing, prog, chk, "A5.scope")  # a margin given as `$m`: a scope left behind by a failed group changes what it means
+    from props import C19 as _C19
+    chk.rule(_C19.text_not_altered, prog, chk)  # a shape written with start and end tag is sized and placed like the empty-element form whatever white space stands between the tags
 
 
 def _lit(body, t, i):
